@@ -7,6 +7,7 @@ mod props_e1;
 mod replay;
 mod report;
 mod scenario;
+mod scripted;
 
 use e1::*;
 use report::Report;
@@ -54,7 +55,15 @@ fn main() {
 fn c01(tier: &str) -> i32 {
     let mut rep = Report::new("C01", tier, "model_checking");
     rep.rule = "per-member reachable-state graphs (BFS, dedup on search key) over fork-tree scenarios; a case is a quiescent state; distinct = distinct (scenario, member, regime, classification)".into();
-    let jobs: Vec<E1Job> = families::c01_quick().into_iter().map(|(s, conv)| { let j = E1Job::new(s); if conv { j } else { j.no_converge() } }).collect();
+    let mut jobs: Vec<E1Job> = if tier == "quick" { jobs_from(families::c01_quick()) } else { jobs_from(families::c01_thorough()) };
+    if tier != "quick" {
+        // both backends in the thorough tier: the quick scenarios, chains and leaves again on SQLite
+        let mut sq = families::c01_quick();
+        sq.extend(families::chains(2, 5));
+        sq.extend(families::leaves());
+        jobs.extend(jobs_from(sq).into_iter().map(|j| j.backend(lab::Bk::Sqlite)));
+    }
+    rep.add_count("scenario_descriptions", jobs.len() as u64);
     run_e1(jobs, &|cx, rep, job| { props_e1::check_c01(cx, rep, job.expect_converge); }, &mut rep);
     rep.finish()
 }
@@ -70,7 +79,20 @@ fn jobs_from(v: Vec<(scenario::Scenario, bool)>) -> Vec<E1Job> {
 fn c07(tier: &str) -> i32 {
     let mut rep = Report::new("C07", tier, "model_checking");
     rep.rule = "every edge deliver(e) of every explored graph where e has already taken effect in the source state (stored message, applied/superseded commit, queued proposal, invalidated message, own echo already confirmed); distinct = distinct (handled-kind, event class, result)".into();
-    let jobs = jobs_from(families::c01_quick());
+    let mut v = families::c01_quick();
+    v.extend(families::c02_quick());
+    if tier != "quick" {
+        v.extend(families::c02_thorough());
+        v.extend(families::chains(2, 5));
+        v.extend(families::leaves());
+        v.extend(families::one_round(&["A", "B", "C", "Z"], &["A", "B"], 2, false));
+    }
+    let mut jobs = jobs_from(v);
+    if tier != "quick" {
+        let mut sq = families::c01_quick();
+        sq.extend(families::c02_quick());
+        jobs.extend(jobs_from(sq).into_iter().map(|j| j.backend(lab::Bk::Sqlite)));
+    }
     run_e1(jobs, &|cx, rep, _| props_e1::check_c07(cx, rep), &mut rep);
     rep.finish()
 }
@@ -78,7 +100,20 @@ fn c07(tier: &str) -> i32 {
 fn c08(tier: &str) -> i32 {
     let mut rep = Report::new("C08", tier, "model_checking");
     rep.rule = "state invariant on every state of every explored graph: stored record == MLS extension/epoch, relays == extension relays; distinct = distinct (record state, extension, epoch, pending flag)".into();
-    let jobs = jobs_from(families::c01_quick());
+    let mut v = families::c08_quick();
+    v.extend(families::c01_quick());
+    if tier != "quick" {
+        v.extend(families::one_round(&["A", "B", "C", "Z"], &["A", "B"], 2, false));
+        v.extend(families::chains(2, 5));
+        v.extend(families::chains(3, 3));
+        v.extend(families::leaves());
+    }
+    let mut jobs = jobs_from(v);
+    if tier != "quick" {
+        let mut sq = families::c08_quick();
+        sq.extend(families::c01_quick());
+        jobs.extend(jobs_from(sq).into_iter().map(|j| j.backend(lab::Bk::Sqlite)));
+    }
     run_e1(jobs, &|cx, rep, _| props_e1::check_c08(cx, rep), &mut rep);
     rep.finish()
 }
@@ -94,15 +129,33 @@ fn c14(tier: &str) -> i32 {
 fn c20(tier: &str) -> i32 {
     let mut rep = Report::new("C20", tier, "model_checking");
     rep.rule = "state invariant on every state: stored snapshots <= retention, manager queue == stored names, no snapshot at/above current epoch, queue epochs increasing; distinct = distinct (stored count, queue length, epoch)".into();
-    let jobs = jobs_from(families::c01_quick());
+    // retention 0..6 over fork chains (one beyond each depth), both backends, restarts on SQLite
+    let mut v: Vec<(scenario::Scenario, bool)> = Vec::new();
+    let rets: &[usize] = if tier == "quick" { &[0, 1, 2, 5] } else { &[0, 1, 2, 3, 5, 6] };
+    for r in rets {
+        let mut c = families::chains(if *r >= 2 { 3 } else { 2 }, *r);
+        if tier == "quick" {
+            c.truncate(2);
+        }
+        v.extend(c);
+    }
+    v.extend(families::c01_quick().into_iter().take(if tier == "quick" { 3 } else { 100 }));
+    let mut jobs = jobs_from(v.clone());
+    let sq: Vec<(scenario::Scenario, bool)> = if tier == "quick" { v.into_iter().take(4).collect() } else { v };
+    jobs.extend(jobs_from(sq).into_iter().map(|j| { let mut j = j.backend(lab::Bk::Sqlite); j.with_restart = true; j.regimes = vec![explore::Regime::Causal]; j.members = Some(vec!["Z".into(), "B".into()]); j }));
     run_e1(jobs, &|cx, rep, _| props_e1::check_c20(cx, rep), &mut rep);
+    scripted::c20_ttl(&mut rep, lab::Bk::Sqlite);
+    scripted::c20_ttl(&mut rep, lab::Bk::Memory);
     rep.finish()
 }
 
 fn c02(tier: &str) -> i32 {
     let mut rep = Report::new("C02", tier, "model_checking");
     rep.rule = "message scenarios; per edge: returned message == what the sender created; per state: the quiescent state it settles into (if it is the reference state) stores every winning-branch message exactly once, intact and processed (causal regime), and no losing-branch message valid; distinct = distinct (message class, copies, intact, state, convergence class)".into();
-    let jobs = jobs_from(families::c02_quick());
+    let mut jobs = if tier == "quick" { jobs_from(families::c02_quick()) } else { jobs_from(families::c02_thorough()) };
+    if tier != "quick" {
+        jobs.extend(jobs_from(families::c02_quick()).into_iter().map(|j| j.backend(lab::Bk::Sqlite)));
+    }
     run_e1(jobs, &|cx, rep, _| props_e1::check_c02(cx, rep), &mut rep);
     rep.finish()
 }
